@@ -522,12 +522,25 @@ func c16DIDDoc(r *Rng) jm {
 	default:
 		doc["@context"] = []interface{}{"https://www.w3.org/ns/did/v1", "https://w3id.org/security/suites/ed25519-2018/v1"}
 	}
+	// a context with an `@base` other than the DID: relative ids ("#frag") are relative to it, everywhere in the document
+	based := r.N(3) == 0
+	if based {
+		ctx, ok := doc["@context"].([]interface{})
+		if !ok {
+			ctx = []interface{}{doc["@context"]}
+		}
+		doc["@context"] = append(ctx, jm{"@base": r.Pick([]string{"https://example.com/dids/alice", id, "did:example:other"})})
+	}
 	vm := func(frag string) jm {
 		kid := id + "#" + frag
-		if r.N(4) == 0 {
+		if r.N(4) == 0 || (based && r.Bool()) {
 			kid = "#" + frag
 		}
-		m := jm{"id": kid, "type": "Ed25519VerificationKey2018", "controller": id}
+		ctrl := id
+		if r.N(5) == 0 { // a method controlled by somebody else
+			ctrl = "did:example:controller"
+		}
+		m := jm{"id": kid, "type": "Ed25519VerificationKey2018", "controller": ctrl}
 		switch r.N(3) {
 		case 0:
 			m["publicKeyBase58"] = "H3C2AVvLMv6gmMNam3uVAjZpfkcJCwDwnZn6z3wXmqPV"
@@ -568,6 +581,9 @@ func c16DIDDoc(r *Rng) jm {
 	var svcs []interface{}
 	for i := r.N(3); i > 0; i-- {
 		s := jm{"id": fmt.Sprintf("%s#svc-%d", id, i), "type": r.Pick([]string{"did-communication", "DIDCommMessaging", "LinkedDomains"})}
+		if r.N(4) == 0 {
+			s["id"] = fmt.Sprintf("#svc-%d", i)
+		}
 		switch r.N(3) {
 		case 0:
 			s["serviceEndpoint"] = "https://agent.example.com/"
@@ -578,6 +594,9 @@ func c16DIDDoc(r *Rng) jm {
 		}
 		if r.Bool() {
 			s["recipientKeys"] = []interface{}{"did:key:z6MkpTHR8VNsBxYAAWHut2Geadd9jSwuBV8xRoAnwWsdvktH"}
+			if r.N(3) == 0 {
+				s["recipientKeys"] = []interface{}{"#keys-1", id + "#keys-2"}
+			}
 		}
 		if r.N(3) == 0 {
 			s["routingKeys"] = []interface{}{"did:key:z6MkpTHR8VNsBxYAAWHut2Geadd9jSwuBV8xRoAnwWsdvktH"}
